@@ -116,6 +116,22 @@ CHECKS = {
 PENDING_REASON = "check not built yet in this revision of /verif (planned in DESIGN.md section 3); not claimed until it runs quiet on the unchanged tree"
 
 
+# widening of the seventh seeding round (see DESIGN 9.2), appended to the level texts
+EXTRA = {
+    "C04": " CROWDED placements (2-16 perturbed copies of a run of 1-3 bases as chains of one model; a base has up to ~40 centroids within 6 A) are judged by the same all-pairs definition.",
+    "C06": " Generated pair lists name residues by one drawn convention: as the structure does, by author identity only, by label only, or by both with a label the structure does not have.",
+    "C07": " Before the elements are asked one of 9 histories of read-only queries (paired() iterated partly / fully, text, fcfs, dot_bracket) runs on the same object.",
+    "C09": " Model numbers are drawn too (ascending, 3-1-2, 7-2-5, 10-20-30, 0-1-2), for tables and splitter inputs.",
+    "C11": " Mini-structures may carry a residue as two non-adjacent record blocks of one identity (the reference model merges them; self-contact, membership, order and class soundness are judged on identities).",
+    "C12": " Every returned dot-bracket is read completely (letters, brackets and the pairs it decodes itself to).",
+    "C13": " The scripted solver is request-aware: the first and the later solver calls of one request behave as scripted, the verdict per request is ok / fault / mixed (mixed: FCFS or an optimal notation), on structures repeated 1-3 times along the strand.",
+    "C14": " Structures with 1024-8192 admissible notations are among the inputs.",
+    "C17": " API-built residues may hold two atoms of one name.",
+    "C18": " Integer lattice points handed over as int64 / int32 / float64 arrays are judged with degeneracy decided exactly on the integers.",
+    "C20": " Substitution alphabets shorter than the number of distinct values are drawn: a refusal is accepted, an answer only if it is an injective first-seen mapping that is returned and applied.",
+}
+
+
 def main():
     props = [json.loads(l) for l in open(os.path.join(VERIF, "properties.jsonl"))]
     checks = []
@@ -134,7 +150,7 @@ def main():
             "evidence_file": f"/verif/evidence/{pid}.json",
             "replay_cmd_template": f"./check.py {pid} --replay {{path}}",
             "engine": "rnaverif",
-            "level_claimed": {"category": level, "text": c["text"], "design_ref": "DESIGN.md section " + c["ref"]},
+            "level_claimed": {"category": level, "text": c["text"] + EXTRA.get(pid, ""), "design_ref": "DESIGN.md section " + c["ref"]},
             "level_note": c["note"],
             "technique": c["technique"],
         })
